@@ -682,8 +682,9 @@ def execute(case):
                 probe = run_session(case, root, None, ns="retry")
                 _restore(root, snap)
                 shutil.rmtree(snap, ignore_errors=True)
-                if probe["raised"] is None and probe["trace"].events:
-                    ev = d.pick("pair:site", probe["trace"].events)
+                cands = [ev for ev in probe["trace"].events if ev[1] != EPILOGUE]
+                if probe["raised"] is None and cands:
+                    ev = d.pick("pair:site", cands)
                     fault2 = fs_fault_for(d, ev)
             if fault2 is not None:
                 r2 = run_session(case, root, fault2, ns="retry")
@@ -697,6 +698,8 @@ def execute(case):
                     both = dict(fault)
                     both["then"] = fault2
                     v, committed = judge_failure(case, both, r2, pre, post_b, ref_new, stats, stage="+retry:" + fault2["site"])
+                    if v is not None and v["cls"] == "changed-after-failure" and post_b in accept_after_failure:
+                        v = None
                     if v is not None:
                         viol.append(v)
                         continue
